@@ -399,6 +399,13 @@ def run(ctx):
     ref = _one(ctx, "verif_c13", 3, 1, None, None, basis=b)
     if ref is not None:
         _one(ctx, "verif_c13", 3, ctx.rng.choice([6, 7, 9] if ctx.quick else [9, 13, 16]), ctx.seed, ref, basis=b)
+    # degenerate libraries: ONE function in the whole library (matches_<n>.txt is a single line, which np.loadtxt reads as a
+    # 0-d array: F15), with and without a recorded substitution, on one rank and on more ranks than functions
+    for tiny in ([["a"], [], [ctx.rng.choice(["-", "/"])]], [["x"], [ctx.rng.choice(["inv", "exp"])], ["+"]]):
+        cs = [3] if not tiny[1] else [1]
+        ref1 = _one(ctx, "verif_c13t%d" % len(tiny[1]), cs[0], 1, None, None, basis=tiny, compls=cs)
+        if ref1 is not None:
+            _one(ctx, "verif_c13t%d" % len(tiny[1]), cs[0], 3, None, ref1, basis=tiny, compls=cs)
     _check_results_ranks(ctx, 6 if deep else 2, [1, 2, 3, 5, 7] if deep else [1, 3, 5])
     ctx.extra["corr_obligations"] = 3
     ctx.extra["corr_discharged"] = (int(not ctx.failures) + int(not any(d["name"].startswith("corr:gather") for d in ctx.disagreements))
